@@ -165,12 +165,10 @@ def receive_window(chk, prog):
         ex.assume(z3.And(mm >= 1, mm <= 1000))
         conn = mkconn(ex, maxm=mm)
         QS = ['fastAckQueue', 'slowAckQueue', 'nackQueue']
-        KMAX = 10 if chk.thorough else 3
+        KMAX = 10    # the queues' capacity: both tiers cover every fill level of all three queues at once
         counts = [ex.choose(KMAX + 1) if q == 'fastAckQueue' or True else 0 for q in QS]
         if sum(counts) == 0:
             raise PathAbort('nothing to receive')
-        if not chk.thorough and sum(1 for x in counts if x) > 2 and max(counts) > 2:
-            raise PathAbort('quick tier: at most two busy queues beyond 2 entries')
         ids = {q: [ex.fresh_uuid('%s%d' % (q[:4], i)) for i in range(n)] for q, n in zip(QS, counts)}
         for q in QS:
             ex.getf(conn, q).q.extend(ids[q])
